@@ -1,5 +1,5 @@
-(* C18str/ProofsOps.v — EnsureAlloced, EnsureDataWritable and every operation of the
-   alphabet of the theorem preserve the invariant and do what the specification says. *)
+(* C18str/ProofsOps.v — EnsureAlloced and EnsureDataWritable preserve the invariant; what
+   they guarantee to their callers. *)
 From Coq Require Import ZArith NArith List Bool Arith Lia Permutation.
 From Morfuse Require Import Base.Arr C18str.Model C18str.Spec C18str.ProofsLib C18str.ProofsInv.
 Import ListNotations.
@@ -10,137 +10,145 @@ Lemma with_data_some {A} s v id d (k : N -> sdata -> outcome A) :
   get (vars s) v = Some id -> get (heap s) id = Some d -> with_data s v k = k id d.
 Proof. intros Hv Hd. unfold with_data, deref. rewrite Hv, Hd. reflexivity. Qed.
 
-Lemma length_of_good s v l : vgood s (get (vars s) v) l -> length_of s v = Ok (length l).
+Lemma length_of_good s v l b : vgood s (get (vars s) v) l b -> length_of s v = Ok (length l).
 Proof.
   unfold length_of, deref. destruct (get (vars s) v) as [id|]; cbn.
   - intros [d [Hd [_ Hl]]]. rewrite Hd. cbn. now rewrite Hl.
-  - intros ->. reflexivity.
+  - intros [-> _]. reflexivity.
 Qed.
 
-Lemma c_str_of_good s v l : vgood s (get (vars s) v) l -> c_str_of s v = Ok l.
+Lemma c_str_of_good s v l b : vgood s (get (vars s) v) l b -> c_str_of s v = Ok (clit l).
 Proof.
   unfold c_str_of, deref. destruct (get (vars s) v) as [id|]; cbn.
   - intros [d [Hd Hg]]. rewrite Hd. cbn. now rewrite (good_text _ _ Hg).
-  - intros ->. reflexivity.
+  - intros [-> _]. reflexivity.
 Qed.
-
-Lemma content_text d l : content d l -> cstr (buf d) = Some l.
-Proof. intros [rest [Hb [Hn _]]]. rewrite Hb. now apply cstr_app. Qed.
 
 Lemma inr_lt nv v : inr nv v = true -> (v < N.of_nat nv)%N.
 Proof. unfold inr. intro H. now apply N.ltb_lt. Qed.
 
-Lemma isnil_false l : isnil l = false -> l <> [].
-Proof. destruct l; [discriminate|discriminate]. Qed.
+(* the pointers an operation holds besides the variable it modifies keep their text *)
+Definition keeps (s s' : st) (E : list N) : Prop :=
+  forall j dj, In j E -> get (heap s) j = Some dj ->
+               exists dj', get (heap s') j = Some dj' /\ same_text dj dj'.
 
-Lemma isnil_true l : isnil l = true -> l = [].
-Proof. destruct l; [reflexivity|discriminate]. Qed.
+Lemma same_text_refl d : same_text d d.
+Proof. repeat split. Qed.
 
-Lemma nonnil_length (l : list N) : l <> [] -> 1 <= length l.
-Proof. destruct l; [congruence|cbn; lia]. Qed.
+Lemma keeps_refl s E : keeps s s E.
+Proof. intros j dj _ H. exists dj. split; [exact H|apply same_text_refl]. Qed.
+
+(* what EnsureAlloced(amount, true) guarantees: the variable owns, exclusively, storage of at
+   least [amount] bytes with the old length; the old text is there if it held no 0 byte *)
+Definition owns (s' : st) (v : N) (id : N) (d : sdata) (l : list N) (amount : nat) : Prop :=
+  get (vars s') v = Some id /\ get (heap s') id = Some d /\ refc d = 0 /\
+  alloced d = length (buf d) /\ amount <= length (buf d) /\ dlen d = length l /\
+  (nz l -> exists rest, buf d = l ++ 0%N :: rest).
 
 (* ---- EnsureAlloced (keepold = true) ------------------------------------------------------ *)
 
-Lemma realloc_ok nv s a v id d l amt :
-  InvG nv s a (Some v) [id] -> get (heap s) id = Some d -> good d l -> length l < amt ->
-  exists s', realloc s v id d amt true = Ok s' /\
-    InvG nv s' a (Some v) [nxt s] /\ get (vars s') v = Some (nxt s) /\
-    exists d', get (heap s') (nxt s) = Some d' /\ content d' l /\ refc d' = 0 /\ length (buf d') = amt.
+Lemma realloc_ok nv s a h v id d l amt E :
+  InvG nv s a h (Some v) (id :: E) -> get (heap s) id = Some d -> good d l -> alloced d <= amt ->
+  exists s' d', realloc s v id d amt true = Ok s' /\
+    InvG nv s' a h (Some v) (nxt s :: E) /\ owns s' v (nxt s) d' l amt /\ keeps s s' E.
 Proof.
-  intros HG Hd Hg Hlt.
-  assert (Hfresh : get (heap s) (nxt s) = None) by (apply (g_fresh _ _ _ _ _ HG); lia).
-  assert (Hne : nxt s <> id) by (intro E; rewrite E in Hfresh; congruence).
+  intros HG Hd Hg Hamt.
+  assert (Hfresh : get (heap s) (nxt s) = None) by (apply (g_fresh _ _ _ _ _ _ HG); lia).
+  assert (Hne : nxt s <> id) by (intro E'; rewrite E' in Hfresh; congruence).
+  pose proof (good_room _ _ Hg) as Hroom. pose proof (clit_length l) as Hcl.
   unfold realloc. rewrite (good_text _ _ Hg). cbn [ov bind].
-  assert (Hw : write_at (repeat poison amt) 0 (l ++ [0%N]) =
-               Some ((l ++ [0%N]) ++ skipn (length (l ++ [0%N])) (repeat poison amt))).
+  assert (Hw : write_at (repeat poison amt) 0 (clit l ++ [0%N]) =
+               Some ((clit l ++ [0%N]) ++ skipn (length (clit l ++ [0%N])) (repeat poison amt))).
   { apply write_at_0. rewrite app_length, repeat_length. cbn. lia. }
   rewrite Hw. cbn [ov bind].
-  set (nb := (l ++ [0%N]) ++ skipn (length (l ++ [0%N])) (repeat poison amt)).
-  set (D := mkD 0 0 0 nb).
-  assert (HG1 : InvG nv (new_data s D) a (Some v) [id; nxt s]).
-  { apply InvG_perm with (e := [nxt s; id]); [apply perm_swap|]. apply P_new; [exact HG|reflexivity]. }
-  destruct (P_delref _ _ _ _ _ _ HG1) as [s2 [d2 [Hd2 [Hdel [HG2 [Hvars [Hnxt [Hfr _]]]]]]]].
+  set (nb := (clit l ++ [0%N]) ++ skipn (length (clit l ++ [0%N])) (repeat poison amt)).
+  set (D := mkD 0 amt (dlen d) nb).
+  assert (HG1 : InvG nv (new_data s D) a h (Some v) (id :: nxt s :: E)).
+  { apply InvG_perm with (e := nxt s :: id :: E); [apply perm_swap|]. apply P_new; [exact HG|reflexivity]. }
+  destruct (P_delref _ _ _ _ _ _ _ HG1) as [s2 [d2 [Hd2 [Hdel [HG2 [Hvars [Hnxt [Hfr [_ Hkeep]]]]]]]]].
   rewrite Hdel. cbn [bind].
-  eexists. split; [reflexivity|]. split; [|split].
-  - apply P_setvar. exact HG2.
-  - cbn [set_var vars]. apply gss.
-  - exists D. cbn [set_var heap]. rewrite Hfr by exact Hne.
-    cbn [new_data heap]. rewrite gss. split; [reflexivity|]. split; [|split].
-    + exists (skipn (length (l ++ [0%N])) (repeat poison amt)). cbn [D buf alloced].
-      split; [|split; [eapply good_nz; eauto|lia]].
-      unfold nb. rewrite <- app_assoc. reflexivity.
-    + reflexivity.
-    + cbn [D buf]. unfold nb. rewrite (write_at_length _ _ _ _ Hw). apply repeat_length.
+  assert (Hd2' : d2 = d).
+  { cbn [new_data heap] in Hd2. rewrite gso in Hd2 by (intro E'; apply Hne; now symmetry). congruence. }
+  subst d2.
+  eexists. exists D. split; [reflexivity|]. split; [apply P_setvar; exact HG2|]. split.
+  - assert (Hlen : length nb = amt) by (unfold nb; rewrite (write_at_length _ _ _ _ Hw); apply repeat_length).
+    split; [cbn [set_var vars]; apply gss|].
+    split; [cbn [set_var heap]; rewrite Hfr by exact Hne; cbn [new_data heap]; apply gss|].
+    cbn [D refc alloced dlen buf]. rewrite Hlen.
+    split; [reflexivity|]. split; [reflexivity|]. split; [lia|]. split; [apply Hg|].
+    intro Hnz. exists (skipn (length (clit l ++ [0%N])) (repeat poison amt)).
+    unfold nb. rewrite (clit_nz _ Hnz). rewrite <- app_assoc. reflexivity.
+  - intros j dj Hin Hj. cbn [set_var heap].
+    assert (Hjn : j <> nxt s) by (intro E'; subst j; congruence).
+    destruct (N.eq_dec j id) as [->|Hji].
+    + rewrite Hd in Hj. inversion Hj; subst dj. apply Hkeep.
+      (* id is held twice: by v's slot and in E, so its refcount is not 0 *)
+      pose proof (g_cnt _ _ _ _ _ _ HG id d Hd) as Hc. cbn [occ] in Hc. rewrite N.eqb_refl in Hc.
+      pose proof (occ_in_pos E id Hin). lia.
+    + exists dj. split; [|apply same_text_refl]. rewrite Hfr by exact Hji.
+      cbn [new_data heap]. rewrite gso by exact Hjn. exact Hj.
 Qed.
 
-Lemma ensure_alloced_ok nv s a v l amount :
-  InvG nv s a (Some v) (olist (get (vars s) v)) ->
-  vgood s (get (vars s) v) l -> length l < amount ->
-  exists s', ensure_alloced s v amount true = Ok s' /\
-    InvG nv s' a (Some v) (olist (get (vars s') v)) /\
-    match get (vars s') v with
-    | None => l = [] /\ amount <= 1
-    | Some id => exists d, get (heap s') id = Some d /\ content d l /\ refc d = 0 /\
-                           amount <= length (buf d)
-    end.
+Lemma ensure_alloced_ok nv s a h v l b amount E :
+  InvG nv s a h (Some v) (olist (get (vars s) v) ++ E) ->
+  vgood s (get (vars s) v) l b -> 1 <= amount ->
+  exists s' id d, ensure_alloced s v amount true = Ok s' /\
+    InvG nv s' a h (Some v) (id :: E) /\ owns s' v id d l amount /\ keeps s s' E.
 Proof.
-  intros HG Hg Hlt. unfold ensure_alloced.
+  intros HG Hg Hamt. unfold ensure_alloced.
   destruct (get (vars s) v) as [id|] eqn:Ev.
-  - cbn [vgood] in Hg. destruct Hg as [d [Hd Hg]]. unfold deref. rewrite Hd. cbn [bind olist] in *.
-    assert (Hre : forall amt, amount <= amt ->
-              exists s', realloc s v id d amt true = Ok s' /\
-                InvG nv s' a (Some v) (olist (get (vars s') v)) /\
-                match get (vars s') v with
-                | None => l = [] /\ amount <= 1
-                | Some id => exists d, get (heap s') id = Some d /\ content d l /\ refc d = 0 /\
-                                       amount <= length (buf d)
-                end).
-    { intros amt Hamt.
-      destruct (realloc_ok nv s a v id d l amt HG Hd Hg ltac:(lia)) as [s' [Hr [HG' [Hv' [d' [Hd' [Hc [Hr' Hlen]]]]]]]].
-      exists s'. split; [exact Hr|]. rewrite Hv'. cbn [olist]. split; [exact HG'|].
-      exists d'. repeat split; auto. lia. }
+  - cbn [vgood] in Hg. destruct Hg as [d [Hd Hg]]. unfold deref. rewrite Hd.
+    cbn [bind olist app] in *.
+    assert (Hre : forall amt, amount <= amt -> alloced d <= amt ->
+              exists s' id' d', realloc s v id d amt true = Ok s' /\
+                InvG nv s' a h (Some v) (id' :: E) /\ owns s' v id' d' l amount /\ keeps s s' E).
+    { intros amt H1 H2.
+      destruct (realloc_ok nv s a h v id d l amt E HG Hd Hg H2) as [s' [d' [Hr [HG' [Ho Hk]]]]].
+      exists s', (nxt s), d'. split; [exact Hr|]. split; [exact HG'|]. split; [|exact Hk].
+      destruct Ho as [O1 [O2 [O3 [O4 [O5 [O6 O7]]]]]]. repeat split; auto. lia. }
     destruct (refc d) as [|r] eqn:Hr.
     + destruct (Nat.leb_spec amount (alloced d)) as [Hle|Hgt].
-      * exists s. split; [reflexivity|]. rewrite Ev. cbn [olist]. split; [exact HG|].
-        exists d. destruct Hg as [[rest [Hb [Hn Ha]]] Hl].
-        split; [exact Hd|]. split; [exists rest; auto|]. split; [exact Hr|lia].
-      * apply Hre. lia.
-    + apply Hre. destruct (Nat.ltb_spec amount (alloced d)); lia.
-  - cbn [vgood] in Hg. subst l. cbn [olist] in HG.
-    destruct (Nat.ltb_spec 1 amount) as [H1|H1].
-    + eexists. split; [reflexivity|]. cbn [set_var vars]. rewrite gss. cbn [olist].
-      split.
-      * apply P_setvar. apply P_new; [exact HG|reflexivity].
-      * eexists. cbn [set_var new_data heap]. rewrite gss. split; [reflexivity|].
-        cbn [buf refc alloced]. split; [|split; [reflexivity|cbn [length]; rewrite repeat_length; lia]].
-        exists (repeat poison (amount - 1)). cbn [buf alloced]. split; [reflexivity|]. split; [apply nz_nil|].
-        cbn [length]. rewrite repeat_length. lia.
-    + exists s. split; [reflexivity|]. rewrite Ev. cbn [olist]. split; [exact HG|]. split; [reflexivity|lia].
+      * exists s, id, d. split; [reflexivity|]. split; [exact HG|]. split; [|apply keeps_refl].
+        destruct Hg as [[rest [Hb Ha]] Hl]. repeat split; auto; [lia|].
+        intros _. exists rest. exact Hb.
+      * apply Hre; lia.
+    + destruct (Nat.ltb_spec amount (alloced d)); apply Hre; lia.
+  - cbn [vgood] in Hg. destruct Hg as [-> _]. cbn [olist app] in HG.
+    destruct (Nat.ltb_spec 0 amount) as [_|Hbad]; [|lia].
+    eexists. exists (nxt s). eexists. split; [reflexivity|]. split; [|split].
+    + apply P_setvar. apply P_new; [exact HG|reflexivity].
+    + split; [cbn [set_var vars]; apply gss|].
+      split; [cbn [set_var new_data heap]; apply gss|].
+      cbn [refc alloced dlen buf length]. rewrite repeat_length.
+      split; [reflexivity|]. split; [lia|]. split; [lia|]. split; [reflexivity|].
+      intros _. exists (repeat poison (amount - 1)). reflexivity.
+    + intros j dj Hin Hj. exists dj. split; [|apply same_text_refl].
+      cbn [set_var new_data heap]. rewrite gso; [exact Hj|].
+      intro E'. subst j. rewrite (g_fresh _ _ _ _ _ _ HG (nxt s)) in Hj by lia. discriminate.
 Qed.
 
 (* ---- EnsureDataWritable ------------------------------------------------------------------ *)
 
-Lemma ensure_writable_ok nv s a v old d l :
-  InvG nv s a (Some v) [old] -> get (vars s) v = Some old -> get (heap s) old = Some d ->
-  good d l -> l <> [] ->
-  exists s' id d', ensure_writable s v = Ok s' /\ InvG nv s' a (Some v) [id] /\
+Lemma ensure_writable_ok nv s a h v old d l :
+  InvG nv s a h (Some v) [old] -> get (vars s) v = Some old -> get (heap s) old = Some d ->
+  good d l -> nz l ->
+  exists s' id d', ensure_writable s v = Ok s' /\ InvG nv s' a h (Some v) [id] /\
     get (vars s') v = Some id /\ get (heap s') id = Some d' /\ good d' l /\ refc d' = 0.
 Proof.
-  intros HG Ev Hd Hg Hnn. unfold ensure_writable. rewrite Ev. unfold deref at 1. rewrite Hd. cbn [bind].
+  intros HG Ev Hd Hg Hnz. unfold ensure_writable. rewrite Ev. unfold deref at 1. rewrite Hd. cbn [bind].
   destruct (refc d) as [|r] eqn:Hr.
   - exists s, old, d. auto 10.
   - assert (Hlen : dlen d = length l) by apply Hg.
-    pose proof (nonnil_length l Hnn) as Hl1.
-    assert (Hfresh : get (heap s) (nxt s) = None) by (apply (g_fresh _ _ _ _ _ HG); lia).
+    assert (Hfresh : get (heap s) (nxt s) = None) by (apply (g_fresh _ _ _ _ _ _ HG); lia).
     assert (Hne : old <> nxt s) by (intro E; rewrite <- E in Hfresh; congruence).
     unfold ensure_alloced. cbn [set_var vars]. rewrite gss.
-    destruct (Nat.ltb_spec 1 (dlen d + 1)) as [_|Hbad]; [|lia].
+    destruct (Nat.ltb_spec 0 (dlen d + 1)) as [_|Hbad]; [|lia].
     cbn [bind new_data set_var heap vars nxt].
     set (D := mkD 0 (dlen d + 1) 0 (0%N :: repeat poison (dlen d + 1 - 1))).
     set (s1 := set_var (new_data (set_var s v None) D) v (Some (nxt s))).
-    assert (HG1 : InvG nv s1 a (Some v) [nxt s; old]).
-    { apply (P_setvar nv (new_data (set_var s v None) D) a v (Some (nxt s))).
-      apply (P_new nv (set_var s v None) a (Some v) [old] D); [|reflexivity].
+    assert (HG1 : InvG nv s1 a h (Some v) [nxt s; old]).
+    { apply (P_setvar nv (new_data (set_var s v None) D) a h v (Some (nxt s))).
+      apply (P_new nv (set_var s v None) a h (Some v) [old] D); [|reflexivity].
       apply P_setvar. exact HG. }
     assert (Hv1 : get (vars s1) v = Some (nxt s)) by (unfold s1; cbn [set_var new_data vars]; apply gss).
     assert (Hn1 : get (heap s1) (nxt s) = Some D) by (unfold s1; cbn [set_var new_data heap nxt]; apply gss).
@@ -148,7 +156,7 @@ Proof.
       by (unfold s1; cbn [set_var new_data heap nxt]; rewrite gso by exact Hne; exact Hd).
     rewrite (with_data_some s1 v (nxt s) D _ Hv1 Hn1).
     unfold deref. rewrite Ho1. cbn [bind]. rewrite (good_text _ _ Hg). cbn [ov bind].
-    rewrite Hlen. rewrite firstn_snoc_all by lia.
+    rewrite (clit_nz _ Hnz). rewrite Hlen. rewrite firstn_snoc_all by lia.
     assert (Hw : write_at (buf D) 0 (l ++ [0%N]) = Some (l ++ [0%N])).
     { rewrite write_at_0.
       - rewrite skipn_all2; [now rewrite app_nil_r|].
@@ -156,25 +164,38 @@ Proof.
       - cbn [D buf length]. rewrite repeat_length, app_length. cbn. lia. }
     rewrite Hw. cbn [ov bind].
     set (D' := mkD (refc D) (alloced D) (length l) (l ++ [0%N])).
-    assert (HG2 : InvG nv (upd s1 (nxt s) D') a (Some v) [old; nxt s]).
+    assert (HG2 : InvG nv (upd s1 (nxt s) D') a h (Some v) [old; nxt s]).
     { apply InvG_perm with (e := [nxt s; old]); [apply perm_swap|].
       apply P_upd with (d := D); auto. now left. }
-    destruct (P_delref _ _ _ _ _ _ HG2) as [s2 [d2 [Hd2 [Hdel [HG3 [Hvars [Hnxt [Hfr _]]]]]]]].
+    destruct (P_delref _ _ _ _ _ _ _ HG2) as [s2 [d2 [Hd2 [Hdel [HG3 [Hvars [Hnxt [Hfr _]]]]]]]].
     rewrite Hdel. exists s2, (nxt s), D'. split; [reflexivity|]. split; [exact HG3|].
     split; [rewrite Hvars; exact Hv1|]. split.
     + rewrite Hfr by (intro E; apply Hne; now symmetry). cbn [upd heap]. apply gss.
     + split; [|reflexivity]. split; [|reflexivity].
-      exists []. cbn [D' D buf alloced]. split; [reflexivity|]. split; [eapply good_nz; eauto|].
+      exists []. cbn [D' D buf alloced]. split; [reflexivity|].
       rewrite app_length. cbn. lia.
 Qed.
 
-(* an operation that first makes the (non-empty) string writable *)
-Lemma open_writable nv s a v :
-  Inv nv s a -> (v < N.of_nat nv)%N -> get a v <> [] ->
-  exists s' id d', ensure_writable s v = Ok s' /\ InvG nv s' a (Some v) [id] /\
+(* an operation that first makes a string without 0 bytes, that has storage, writable *)
+Lemma open_writable nv s a h v :
+  Inv nv s a h -> (v < N.of_nat nv)%N -> get h v = true -> nz (get a v) ->
+  exists s' id d', ensure_writable s v = Ok s' /\ InvG nv s' a h (Some v) [id] /\
     get (vars s') v = Some id /\ get (heap s') id = Some d' /\ good d' (get a v) /\ refc d' = 0.
 Proof.
-  intros HI Hv Hnn. destruct (P_open nv s a v HI Hv) as [HG Hg].
-  destruct (get (vars s) v) as [old|] eqn:Ev; cbn [vgood olist] in *; [|contradiction].
-  destruct Hg as [d [Hd Hg]]. eapply ensure_writable_ok; eauto.
+  intros HI Hv Hh Hnz. destruct (P_open nv s a h v HI Hv) as [HG Hg].
+  destruct (get (vars s) v) as [old|] eqn:Ev; cbn [vgood olist] in *.
+  - destruct Hg as [d [Hd Hg]]. eapply ensure_writable_ok; eauto.
+  - destruct Hg as [_ Hb]. congruence.
+Qed.
+
+(* the same for a string that is known to be non-empty (it then has storage) *)
+Lemma open_writable_nonempty nv s a h v :
+  Inv nv s a h -> (v < N.of_nat nv)%N -> get a v <> [] -> nz (get a v) ->
+  exists s' id d', ensure_writable s v = Ok s' /\ InvG nv s' a h (Some v) [id] /\
+    get (vars s') v = Some id /\ get (heap s') id = Some d' /\ good d' (get a v) /\ refc d' = 0.
+Proof.
+  intros HI Hv Hnn Hnz. destruct (P_open nv s a h v HI Hv) as [HG Hg].
+  destruct (get (vars s) v) as [old|] eqn:Ev; cbn [vgood olist] in *.
+  - destruct Hg as [d [Hd Hg]]. eapply ensure_writable_ok; eauto.
+  - destruct Hg as [Hl _]. contradiction.
 Qed.
